@@ -25,7 +25,26 @@ MANIFEST = {
             "LibSecpOk the libsecp256k1 verify equals Generator.verify for 1 <= z < 2^256, 0 <= r,s < 2^256, and its sign returns the same "
             "r and s or n-s, the low-S one (C01_native_libsecp_*). Models tied to the code by differential correspondence in both "
             "arithmetic configurations (pure model vs both classes; the OpenSSL glue model vs the OpenSSL class: ops ossl_sign/verify/"
-            "recover) and an independent Python RFC 6979 on every run.",
+            "recover) and an independent Python RFC 6979 on every run. "
+            "FOR NOBODY ELSE (converse of recovery; secp256k1/secp256r1, where #E = n and p <= 2n are proved): a reduced curve point Q verifies "
+            "(z, r, s) IF AND ONLY IF 1 <= r,s < n and Q is among possible_public_pairs_for_signature(z, (r, s)) or among "
+            "possible_public_pairs_for_signature(z, (r + n, s)) (C01_verifying_keys_secp256k1/_secp256r1; in the group: Q = r^-1(s*R - z*G) for a "
+            "point R with x(R) mod n = r, C01_verifying_keys_group_partial); recovery as Generator users call it looks at the abscissa r only, so a key "
+            "whose nonce point has x(R) = r + n verifies and is not returned (it is for r >= p - n: C01_verifying_keys_eq_recovered_*); any "
+            "verifying key with x(R) < n is returned (C01_recover_complete_of_verify_*); at most four keys verify one (z, r, s) "
+            "(C01_verifying_keys_finite_*) and at most four residue classes of z verify under one key and (r, s) "
+            "(C01_verifying_hashes_finite_*); verify sees z modulo n only (C01_verify_hash_mod_n_*: z and z + n alike, z = n not refused). "
+            "NONCE: deterministic_generate_k is a function of int2octets(d) || bits2octets(z) alone (C01_nonce_factors_through_seed), that seed "
+            "is the RFC's (C01_nonce_seed_eq_spec) and an injective encoding of (d, bits2int(z) mod n) (C01_nonce_seed_injective); on a "
+            "256-bit order the (key, hash) pairs sharing their HMAC input are exactly z' in {z, z + n, z - n} with the same key "
+            "(C01_nonce_seed_collisions_256), and there the whole signature coincides (C01_sign_hash_plus_n_*). "
+            "KEY.SIGN / KEY.VERIFY (Model/KeySign.lean over the DER model of C10): Key.verify returns a Boolean for EVERY byte string as "
+            "signature and as hash (C01_key_verify_total: sigdecode_der raises only UnexpectedDER / ValueError, Generator.verify nothing on a "
+            "curve point), equals Generator.verify of the strictly decoded pair and False when it does not decode (C01_key_verify_eq_verify), "
+            "Key.verify(h, Key.sign(h)) = True under the key, its public_copy() and any key with the same pair (C01_key_sign_verifies), a "
+            "public key raises RuntimeError (C01_key_sign_public), and in any history of sign / verify / public_copy / from_sec(sec()) steps on "
+            "one object every verify answer is that of a fresh public key (C01_key_history_fresh). The driver evaluates the model with the "
+            "_powers table of the two curves built once; C01_driver_cached_is_model proves these functions equal to the model's.",
     "note": "libsecp256k1 is ABSENT from this sandbox: its glue (native/secp256k1.py: sign with low-S normalisation, verify, the key and "
             "signature parsing around the calls) is modelled and its contract LibSecpOk stated BY READING ONLY - no correspondence run is "
             "possible here; evidence.coverage.libsecp256k1 of C02 reports whether the library is loadable where the check runs. Caveats "
@@ -41,21 +60,42 @@ MANIFEST = {
             "n*Q = infinity; for secp256k1 and secp256r1 it is discharged (C01_verify_iff_secp256k1/_secp256r1, C01_verify_neg_s_*, "
             "C01_recover_sound_secp256k1/_secp256r1 hold for every curve point, no torsion or 2-torsion hypothesis): #E(F_p) = n is "
             "proved in Lean without Hasse (#E <= 2p+1 < 3n, n | #E, no point of order two by a generated kernel-checked certificate). "
-            "Known finding: on toy curves the retry loop k += 1 can reach k = n and raise TypeError (C01_sign_returns_refuted).",
+            "Known finding: on toy curves the retry loop k += 1 can reach k = n and raise TypeError (C01_sign_returns_refuted). "
+            "READING OF TWO GLOSSES OF THE STATEMENT (no pycoin defect, true of every ECDSA / RFC 6979 implementation): (1) 'rejects a "
+            "signature presented with any other hash' - a signature (r, s) valid for z under d*G is valid for z' = -z - 2rd (mod n) too "
+            "(C01_second_hash_verifies; toy witness replayed: curve of order 53, d = 2, (r, s) = (14, 41) verifies for z = 1 and z = 49), "
+            "and for z + n; what holds is the verification equation, and 'at most four classes of z' - the rest is an assumption on the hash "
+            "function. (2) 'the nonce is never shared between distinct (key, hash) pairs' - RFC 6979's bits2octets reduces the hash modulo n, so "
+            "z and z + n (both below 2^256; e.g. secp256k1, d = 7, z = 5 and z = 5 + n) get the same nonce BY THE RFC; the signatures are then "
+            "identical, nothing leaks; 'distinct' has to be read modulo n. pycoin never reduces z itself (verify refuses z = 0 but accepts z = n; "
+            "from_bytes_32 has no length check, so Key.sign of a hash longer than 32 bytes with value >= 2^256 + n raises OverflowError - outside "
+            "the quantifier). possible_public_pairs_for_signature enumerates x = r only (never r + n): keys whose nonce point has x(R) >= n are "
+            "not recovered unless the caller passes r + n. Key histories: the model of public_copy / from_sec(sec()) keeps the pair; the Key "
+            "object's hash160 caches are C10's concern.",
     "technique": "Lean 4 proof (Mathlib group law over ZMod p, field arithmetic mod n; native glue over explicit library contracts) + "
                  "differential correspondence model vs implementation per backend, glue model vs OpenSSL class + independent RFC 6979 "
                  "reference + exhaustive toy-curve enumeration (test)",
 }
-RULE = ("ops sign/verify/recover/rfc6979/rfc6979n/rfc6979_spec/keysign/keyverify/toy_sign/toy_verify on secp256k1, secp256r1 (pure and OpenSSL), toy curves of prime "
+RULE = ("ops sign/verify/recover/rfc6979/rfc6979n/rfc6979_spec/keysign/keyverify/keysign_der/keyverify_der/keyhist/toy_sign/toy_verify/toy_keys on secp256k1, secp256r1 (pure and OpenSSL), toy curves of prime "
         "order; ossl_sign/ossl_verify/ossl_recover: Generator methods over the glue model of native/openssl.py against the OpenSSL class; "
         "boundary scalars d,z in {1,2,n-1}, z in {n,n+1,2^256-1}, r,s in {0,n,n+1,2^256-1}, s -> n-s, foreign key, foreign "
-        "hash, single-bit changes of d and z; distinct = distinct op line; trivial = z = 0")
+        "hash, single-bit changes of d and z, z +- n (same nonce, same signature, same verdict), the second hash -z - 2rd, a constructed nonce "
+        "point with x(R) = n + t on both 256-bit curves; keysign_der/keyverify_der/keyhist: Key.sign / Key.verify of the BTC Key class "
+        "(secp256k1) and of Key.make_subclass over secp256r1 on byte strings - the DER blob itself, ~45 malformed blobs (empty, truncated, "
+        "trailing bytes outside / inside the sequence, wrong tags, wrong / long-form / indefinite lengths, empty INTEGER, negative, "
+        "non-minimal and oversized INTEGERs, bit flips), hashes of other lengths, keys from secret / pair / SEC, histories (sign, verify, sign "
+        "again, public_copy, from_sec(sec())) on one object, each op evaluated in both arithmetic configurations; toy_keys: all curve "
+        "points verifying (z, r, s) against recovery at r and r + n; distinct = distinct op line; trivial = z = 0")
 ASSUMPTIONS = [
     "libsecp256k1 is not installed: the libsecp256k1 backend (which also low-S normalises) is never run; its glue model and the contract LibSecpOk "
     "(hypothesis of the C01_native_libsecp_* theorems) are tied to native/secp256k1.py and the library's documentation by reading only",
     "libcrypto does what LibCryptoOk says (hypothesis of the C01_native_openssl_* theorems; probed on the real library by C02's ossl_probe ops), not verified",
     "hashlib/hmac SHA-256 are modelled by Pycoin.Hash.sha256 / hmacSha256L (validated against hashlib on every run), not verified",
-    "distinctness of RFC 6979 nonces for distinct (d, z) is a property of HMAC-SHA256 (assumption); what is checked is k = RFC6979(d, z)",
+    "distinctness of RFC 6979 nonces for distinct seeds int2octets(d) || bits2octets(z) is a property of HMAC-SHA256 (assumption: a collision of "
+    "HMAC-DRBG outputs on distinct inputs); proved: the nonce is a function of that seed and the seed is injective in (d, bits2int(z) mod n); checked: "
+    "k = RFC6979(d, z), k changes with a bit of d or z, k(d, z) = k(d, z +- n)",
+    "that the second hash -z - 2rd of a signature (and the up to four keys r^-1(s*R - z*G)) cannot be exploited is an assumption on the hash function / the "
+    "discrete logarithm (unforgeability), not a theorem",
 ]
 TRUSTED = ["harness/props/curve_common.py: rfc6979_ref, an independent RFC 6979 written from the RFC text with hashlib/hmac",
            "lean/Pycoin/Proofs/NativeContract.lean (LibCryptoOk) and lean/Pycoin/Proofs/NativeSecp.lean (LibSecpOk): the statements about the C libraries the native theorems assume"]
@@ -144,6 +184,103 @@ def _ref_sig(tok, d, z):
     return k, R, r, s
 
 
+def _h32(z: int) -> str:
+    return "%064x" % z
+
+
+def _hexb(s: str) -> bytes:
+    return b"" if s == "-" else bytes.fromhex(s)
+
+
+def _der_int(v: int) -> bytes:
+    """reference DER INTEGER of v >= 0 (minimal, one 00 in front when the top bit is set), short or long-form length"""
+    b = v.to_bytes(max(1, (v.bit_length() + 7) // 8), "big")
+    if b[0] & 0x80:
+        b = b"\x00" + b
+    return b"\x02" + _der_len(len(b)) + b
+
+
+def _der_len(l: int) -> bytes:
+    if l < 0x80:
+        return bytes([l])
+    lb = l.to_bytes((l.bit_length() + 7) // 8, "big")
+    return bytes([0x80 | len(lb)]) + lb
+
+
+def _der_sig(r: int, s: int) -> bytes:
+    body = _der_int(r) + _der_int(s)
+    return b"\x30" + _der_len(len(body)) + body
+
+
+def _der_mutations(rng, r: int, s: int, n: int, flips: int = 1):
+    """byte strings presented to Key.verify as signatures: the DER of (r, s) and every way of getting it wrong"""
+    good = _der_sig(r, s)
+    ri, si = _der_int(r), _der_int(s)
+    rb = r.to_bytes(32, "big")
+    out = [good, b"", b"\x30", b"\x30\x00", b"\x30\x80", b"\x30\x81", good[:-1], good[:len(good) // 2], good[:2], good[:3],
+           good + b"\x00", good + good, good + bytes([rng.randrange(256)]),                      # trailing bytes after the sequence
+           b"\x31" + good[1:], b"\x30" + bytes([good[1] + 1]) + good[2:] + b"\x00",               # other tag; trailing byte INSIDE the sequence
+           b"\x30" + bytes([good[1] + 1]) + good[2:], b"\x30" + bytes([good[1] - 1]) + good[2:],  # announced length off by one
+           b"\x30\x81" + good[1:],                                                               # long-form length of the sequence
+           b"\x30\x82\x00" + good[1:], b"\x30\x80" + good[2:],                                    # non-minimal / indefinite length
+           b"\x30" + _der_len(len(ri) + 2) + ri + b"\x02\x00",                                    # empty INTEGER: int(b"", 16) -> ValueError
+           b"\x30" + _der_len(2 + len(si)) + b"\x02\x00" + si,
+           b"\x30" + _der_len(3 + len(si)) + b"\x02\x80\x00" + si,                                # INTEGER with length byte 0x80 -> ValueError
+           b"\x30" + _der_len(len(ri) + len(si)) + b"\x03" + ri[1:] + si,                         # wrong INTEGER tag
+           b"\x30" + _der_len(len(ri)) + ri,                                                     # only one INTEGER
+           _der_sig(0, s), _der_sig(r, 0), _der_sig(n, s), _der_sig(r, n), _der_sig(r + n, s), _der_sig(r, s + n), _der_sig(r, n - s),
+           _der_sig(2 ** 256 - 1, s), _der_sig(r, 2 ** 256 + 5), _der_sig(2 ** 520 + r, s), _der_sig(r ^ 1, s), _der_sig(s, r),
+           # negative INTEGERs (top bit set, no 00 in front) and non-minimal ones (extra 00)
+           b"\x30" + _der_len(34 + len(si)) + b"\x02\x20" + bytes([rb[0] | 0x80]) + rb[1:] + si,
+           b"\x30" + _der_len(3 + len(si)) + b"\x02\x01\xff" + si,
+           b"\x30" + _der_len(len(ri) + 1 + len(si)) + b"\x02" + bytes([ri[1] + 1]) + b"\x00" + ri[2:] + si,
+           b"\x30" + _der_len(len(ri) + len(si) + 1) + ri[:1] + b"\x81" + ri[1:] + si,            # long-form length of an INTEGER
+           bytes(rng.randrange(256) for _ in range(rng.randrange(1, 80)))]
+    for _ in range(flips):
+        b = bytearray(good)
+        b[rng.randrange(len(b))] ^= 1 << rng.randrange(8)
+        out.append(bytes(b))
+    return out
+
+
+def _ctor_pub(tok, ctor):
+    """the public pair (as op text) a key constructor text denotes, or None; computed with the implementation"""
+    q = ctor.split(":")
+    if q[0] == "d":
+        n = consts(tok)[5]
+        return _pub(tok, int(q[1])) if 1 <= int(q[1]) < n else None
+    if q[0] == "pair":
+        P = parse_pt(q[1])
+        return q[1] if P != (None, None) and on_curve(tok, P) and cc.reduced(tok, P) else None
+    if q[0] == "sec":
+        b = _hexb(q[1])
+        p = consts(tok)[0]
+        if len(b) == 65 and b[0] == 4:
+            P = (int.from_bytes(b[1:33], "big"), int.from_bytes(b[33:], "big"))
+            return show_pt(P) if on_curve(tok, P) and cc.reduced(tok, P) else None
+        if len(b) == 33 and b[0] in (2, 3) and int.from_bytes(b[1:], "big") < p:
+            ans = cc.impl("ec_points_for_x %s %d" % (tok, int.from_bytes(b[1:], "big")))
+            if ans.startswith("ok "):
+                for P in ans[3:].split(" "):
+                    if parse_pt(P)[1] & 1 == b[0] & 1:
+                        return P
+    return None
+
+
+def _key_verify_expect(tok, Q, h, sig_hex):
+    """what Key.verify must answer for the public pair Q: Generator.verify of the pair pycoin's own strict sigdecode_der
+    returns, False when that raises UnexpectedDER / ValueError; None = the hash is outside the quantifier"""
+    hb = _hexb(h)
+    z = int.from_bytes(hb, "big")
+    if len(hb) != 32 or z == 0:
+        return None
+    dec = cc.impl("c01_derdec " + sig_hex)
+    if dec.startswith("ok "):
+        r, s = dec[3:].split(" ")
+        return cc.impl("verify %s %s %d %s %s" % (tok, Q, z, r, s))
+    return "ok 0"
+
+
 def oracle(op: str, out: str):
     """the property evaluated on the implementation alone; an auxiliary implementation call that raises where the property
     says it cannot (sum of two curve points, multiple of a curve point) makes the answer unparsable and is reported"""
@@ -169,6 +306,20 @@ def _oracle(op: str, out: str):
         ref = cc.rfc6979_ref(n, d, _hash_bytes(z))
         if kk != ref:
             return "nonce differs from RFC 6979: %d" % ref
+        if k == "rfc6979" and n.bit_length() == 256:
+            # the nonce depends on the key and on the hash: a changed hash bit / key bit changes it (equality would be an
+            # HMAC-SHA256 collision) - EXCEPT for z and z +- n, which bits2octets of RFC 6979 maps to the same octets
+            # (C01_nonce_seed_collisions_256): there the nonce must be the same
+            z2 = z ^ 1 if (z ^ 1) % n != z % n and z ^ 1 else z + 2
+            o2 = cc.impl("rfc6979 %s %d %d" % (a[1], d, z2))
+            if z2 < 2 ** 256 and o2 == out:
+                return "the nonce does not depend on the hash: same nonce for z and z' = %d" % z2
+            d2 = d ^ 1 if 1 <= d ^ 1 < n else d - 2
+            if 1 <= d2 < n and cc.impl("rfc6979 %s %d %d" % (a[1], d2, z)) == out:
+                return "the nonce does not depend on the key: same nonce for d and d' = %d" % d2
+            zt = z + n if z + n < 2 ** 256 else (z - n if z > n else None)
+            if zt is not None and cc.impl("rfc6979 %s %d %d" % (a[1], d, zt)) != out:
+                return "z and z +- n (same bits2octets) get different nonces: RFC 6979 prescribes the same"
         return None
     if k == "sign":
         tok = a[1]
@@ -202,6 +353,11 @@ def _oracle(op: str, out: str):
                 one = cc.impl("recover %s %d %d %d %d" % (tok, z, r, s, recid & 1))
                 if one != "ok " + Q:
                     return "recovery with the parity of y(R) does not return exactly the signer: " + one
+        if n.bit_length() == 256:
+            # z and z +- n: same nonce (RFC 6979) and the same signing equation, hence the same signature (C01_sign_hash_plus_n_*)
+            zt = z + n if z + n < 2 ** 256 else (z - n if z > n else None)
+            if zt is not None and cc.impl("sign %s %d %d" % (tok, d, zt)) != out:
+                return "sign(d, z) and sign(d, z +- n) differ although the hashes are congruent modulo n and share the nonce"
         return _cross(op, out)
     if k == "verify":
         tok = a[1]
@@ -227,6 +383,20 @@ def _oracle(op: str, out: str):
             o2 = cc.impl("verify %s %s %d %d %d" % (tok, a[2], z, r, n - s))
             if o2 != out:
                 return "verify is not invariant under s -> n-s"
+        # the hash enters modulo n only (C01_verify_hash_mod_n_*): z and z +- n verify alike (z = n is not refused)
+        zt = z + n if z + n < 2 ** 256 else (z - n if z > n else None)
+        if zt is not None and cc.impl("verify %s %s %d %d %d" % (tok, a[2], zt, r, s)) != out:
+            return "verify(z) and verify(z +- n) differ"
+        if want and cc.reduced(tok, Q) and split_curve(tok)[0] in BIG and split_curve(tok)[1] == "openssl":
+            # converse of recovery (C01_recover_complete_of_verify_*): a key that verifies and whose nonce point
+            # (z/s)G + (r/s)Q has x < n is among the recovered keys; with x >= n it is recovered at the abscissa r + n
+            # (asked of the OpenSSL configuration only, for speed: recovery itself is compared across configurations by its own ops)
+            xs = parse_pt(S)[0]
+            rec = cc.impl("recover %s %d %d %d ~" % (tok, z, r if xs < n else r + n, s))
+            keys = [] if not rec.startswith("ok ") or rec == "ok ~" else rec[3:].split(";")
+            if a[2] not in keys:
+                return "a key that verifies is not among the keys recovered at the abscissa of its nonce point (%s): %s" % (
+                    "r" if xs < n else "r + n", rec[:120])
         return _cross(op, out)
     if k == "keysign":
         tok = a[1]
@@ -247,6 +417,106 @@ def _oracle(op: str, out: str):
         ref = cc.impl("verify %s %s" % (tok, " ".join(a[2:])))
         if out != ref:
             return "Key.verify (through DER) differs from Generator.verify: %s vs %s" % (out, ref)
+        return None
+    if k == "keysign_der":
+        tok, ctor = a[1], a[2]
+        n = consts(tok)[5]
+        q = ctor.split(":")
+        hb = _hexb(a[3])
+        z = int.from_bytes(hb, "big")
+        if q[0] != "d":
+            # a key without secret exponent cannot sign: RuntimeError (as documented), never a signature
+            if _ctor_pub(tok, ctor) is not None and out != "err RuntimeError":
+                return "Key.sign on a public key did not raise RuntimeError: " + out[:80]
+            return None
+        d = int(q[1])
+        if not (1 <= d < n and len(hb) == 32 and z != 0):
+            return None
+        if not out.startswith("ok "):
+            return "Key.sign raised: " + out
+        ref = cc.impl("sign %s %d %d" % (tok, d, z))
+        if not ref.startswith("ok "):
+            return "Generator.sign raised: " + ref
+        r, s_ = (int(v) for v in ref[3:].split(" ")[:2])
+        if _hexb(out[3:]) != _der_sig(r, s_):
+            return "Key.sign is not the DER encoding of Generator.sign(d, z): %s vs (%d, %d)" % (out[3:40], r, s_)
+        Q = _pub(tok, d)
+        for c2 in ("pair:%s:1" % Q, "pair:%s:0" % Q, ctor):
+            v = cc.impl("keyverify_der %s %s %s %s" % (tok, c2, a[3], out[3:]))
+            if v != "ok 1":
+                return "Key.verify(h, Key.sign(h)) is not True (key %s): %s" % (c2.split(":")[0], v)
+        return _cross(op, out)
+    if k == "keyverify_der":
+        tok, ctor = a[1], a[2]
+        Q = _ctor_pub(tok, ctor)
+        if Q is None:
+            return None
+        want = _key_verify_expect(tok, Q, a[3], a[4])
+        if want is None:
+            return None
+        if out not in ("ok 0", "ok 1"):
+            return "Key.verify did not return a Boolean: " + out
+        if out != want:
+            return "Key.verify returns %s, Generator.verify of the strictly decoded pair (False when it does not decode) says %s" % (out, want)
+        return _cross(op, out)
+    if k == "keyhist":
+        tok, ctor = a[1], a[2]
+        Q = _ctor_pub(tok, ctor)
+        if Q is None:
+            return None
+        if not out.startswith("ok "):
+            return "history raised: " + out
+        outs = out[3:].split(";")
+        steps = a[3].split(",")
+        if len(outs) != len(steps):
+            return "history has %d answers for %d steps" % (len(outs), len(steps))
+        cur = ctor            # constructor text of a FRESH key equal to the current object (fields only)
+        last, last_h = "-", None
+        for st, o in zip(steps, outs):
+            q = st.split(":")
+            if q[0] == "s":
+                fresh = cc.impl("keysign_der %s %s %s" % (tok, cur, q[1]))
+                want = fresh[3:] if fresh.startswith("ok ") else "!" + fresh[4:]
+                if o != want:
+                    return "step %s: the object answers %s, a fresh key built from its fields %s" % (st[:20], o[:40], want[:40])
+                if fresh.startswith("ok "):
+                    last, last_h = o, q[1]
+            elif q[0] in ("v", "l"):
+                sig = q[2] if q[0] == "v" else last
+                fresh = cc.impl("keyverify_der %s pair:%s:1 %s %s" % (tok, Q, q[1], sig))
+                want = fresh[3:] if fresh.startswith("ok ") else "!" + fresh[4:]
+                if o != want:
+                    return "step %s: the object answers %s, a fresh public key %s" % (st[:20], o, want)
+                hb = _hexb(q[1])
+                if q[0] == "l" and last_h == q[1] and len(hb) == 32 and int.from_bytes(hb, "big") != 0 and o != "1":
+                    return "step %s: the signature this key made for this hash does not verify: %s" % (st[:20], o)
+            elif q[0] == "p":
+                if o != "pub":
+                    return "public_copy raised: " + o
+                cur = "pair:%s:%s" % (Q, cur.split(":")[2] if cur.split(":")[0] != "sec" else ("1" if len(cur) < 80 else "0"))
+            elif q[0] == "c":
+                if o != "sec":
+                    return "Key.from_sec(key.sec()) raised: " + o
+                cur = "pair:%s:%s" % (Q, cur.split(":")[2] if cur.split(":")[0] != "sec" else ("1" if len(cur) < 80 else "0"))
+        return _cross(op, out)
+    if k == "toy_keys":
+        tok = a[1]
+        p, ca, cb, gx, gy, n = consts(tok)
+        z, r, s_ = int(a[2]), int(a[3]), int(a[4])
+        if not out.startswith("ok ") or z == 0 or p > 2 * n:
+            return None if out.startswith("ok ") else "toy_keys raised: " + out
+        ver, rec1, rec2 = out[3:].split("|")
+        if "!" in rec1 + rec2:
+            return ("recovery raised: " + rec1 + " / " + rec2) if (1 <= r < n and 1 <= s_ < n) else None
+        V = set() if ver == "~" else set(ver.split(";"))
+        R1 = set() if rec1 == "~" else set(rec1.split(";"))
+        R2 = set() if rec2 == "~" else set(rec2.split(";"))
+        if not (1 <= r < n and 1 <= s_ < n):
+            return "a signature with r or s outside [1, n-1] verifies under " + ver if V else None
+        if len(V) > 4:
+            return "more than four keys verify one (z, r, s): " + ver
+        if V != (R1 | R2) - {"inf"}:
+            return "the keys that verify (%s) are not the keys recovered at the abscissas r and r + n (%s | %s)" % (ver, rec1, rec2)
         return None
     if k in ("ossl_sign", "ossl_verify", "ossl_recover"):
         # model side: Generator.* over the GLUE MODEL of the OpenSSL class; on the implementation alone: the OpenSSL class
@@ -423,6 +693,76 @@ def gen(ctx, emit):
                 emit("keyverify %s %s %d %d %d" % (tok, Q2, z0, r, s))
                 emit("keyverify %s %d,%d %d %d %d" % (tok, parse_pt(Q)[0], parse_pt(Q)[1] + 1, z0, r, s))
                 emit("keyverify %s %d,%d 1 %d 1" % (tok, gx, gy, n - 1))
+            if so.startswith("ok "):
+                # ---- Key.sign / Key.verify on BYTE STRINGS (Model/KeySign.lean): the DER blob itself, every malformed blob as
+                # signature (Key.verify must answer a Boolean), histories on one Key object.  secp256k1: the BTC network's Key
+                # class; secp256r1: Key.make_subclass over that generator.  The oracle of every one of these ops evaluates the op in
+                # the OTHER arithmetic configuration too (_cross), so the full lists are emitted under the OpenSSL token only (one
+                # model evaluation, both implementations) and a sample under the pure token.
+                full = cfg == "openssl"
+                k1 = name == "secp256k1"
+                h0 = _h32(z0)
+                kd, kq = "d:%d:1" % d0, "pair:%s:1" % Q
+                qx, qy = parse_pt(Q)
+                sec_c = (bytes([2 + (qy & 1)]) + qx.to_bytes(32, "big")).hex()
+                sec_u = (b"\x04" + qx.to_bytes(32, "big") + qy.to_bytes(32, "big")).hex()
+                good = _der_sig(r, s).hex()
+                emit("keysign_der %s %s %s" % (tok, kd, h0), "key-der")
+                emit("keysign_der %s %s %s" % (tok, kq, h0), "key-der")                        # public key: RuntimeError
+                if full and k1:
+                    emit("keysign_der %s d:%d:0 %s" % (tok, n - 1, _h32(two256 - 1)), "key-der")
+                    emit("keysign_der %s d:1:1 %s" % (tok, _h32(n)), "key-der")                # z = n (not refused, not reduced)
+                    emit("keysign_der %s d:2:1 %s" % (tok, _h32(n + 5)), "key-der")            # z >= n ...
+                    emit("keysign_der %s d:2:1 %s" % (tok, _h32(5)), "key-der")                # ... same signature as z - n
+                    emit("keysign_der %s sec:%s %s" % (tok, sec_c, h0), "key-der")
+                if full:
+                    for bad in ("d:0:1", "d:%d:1" % n, "d:-1:1", "pair:inf:1", "pair:%d,%d:1" % (qx, qy + 1), "sec:02" + "00" * 31, "sec:-"):
+                        emit("keysign_der %s %s %s" % (tok, bad, h0), "key-der")                # constructor errors, as coded
+                    for hh in (_h32(0), "-", "00" + h0, "ff" * 33, "01"):                       # hashes outside the quantifier, as coded
+                        emit("keysign_der %s %s %s" % (tok, kd, hh), "key-der")
+                muts = _der_mutations(rng, r, s, n, 3 if ctx.thorough else 2)
+                if not (full and k1):
+                    muts = muts[:1] + muts[(1 if full else 2)::4]
+                for m in muts:
+                    emit("keyverify_der %s %s %s %s" % (tok, kq, h0, m.hex() or "-"), "key-der")
+                if full:
+                    kks = ["pair:%s:0" % Q, "pair:%s:1" % Q2, "pair:%d,%d:1" % (qx, qy + 1), "pair:inf:1"]
+                    hhs = [_h32(z0 + 1), _h32(0), "-"]
+                    if k1:
+                        kks += ["sec:" + sec_c, "pair:%d,%d:1" % (qx, p - qy), "pair:%d,%d:1" % (qx + p, qy)]
+                        hhs += [_h32(z0 + n) if z0 + n < two256 else h0, h0[2:], "ff" * 40]
+                    if ctx.thorough or k1:
+                        kks += ["sec:" + sec_u, kd]
+                        hhs += ["00" + h0]
+                    for kk in kks:
+                        emit("keyverify_der %s %s %s %s" % (tok, kk, h0, good), "key-der")
+                    for hh in hhs:
+                        emit("keyverify_der %s %s %s %s" % (tok, kq, hh, good), "key-der")
+                hA, hB = h0, _h32(z0 ^ (1 << 200))
+                if full and k1:
+                    emit("keyhist %s %s l:%s,s:%s,l:%s,s:%s,l:%s,p,l:%s,s:%s,c,l:%s,v:%s:%s,v:%s:%s00,v:%s:-" % (
+                        tok, kd, hA, hA, hA, hB, hA, hB, hA, hB, hA, good, hA, good, hA), "key-history")
+                    emit("keyhist %s %s v:%s:%s,s:%s,p,c,v:%s:%s" % (tok, kq, hA, good, hA, hB, good), "key-history")
+                    emit("keyhist %s sec:%s v:%s:%s,c,p,v:%s:%s,s:%s" % (tok, sec_u, hA, good, hB, good, hA), "key-history")
+                else:
+                    emit("keyhist %s d:%d:0 s:%s,c,l:%s,p,l:%s,s:%s" % (tok, n - 1, hB, hB, hA, hB), "key-history")
+                # ECDSA's second hash (C01_second_hash_verifies): (r, s) verifies for z' = -z - 2rd too - what the equation says
+                z2 = (-z0 - 2 * r * d0) % n
+                if z2:
+                    emit("verify %s %s %d %d %d" % (tok, Q, z2, r, s))
+                # a nonce point with x(R) >= n (constructed: it does not happen by chance): R = (n + t, y), r = t; the keys
+                # r^-1(s*R - z*G) come from recovery called with the abscissa n + t; they verify (z, r, s) and recovery called with r
+                # does not return them (C01_verifying_keys_*)
+                for t in range(1, 40) if full else ():
+                    if cc.impl("ec_points_for_x %s %d" % (tok, n + t)).startswith("ok ") and n + t < p:
+                        rec = cc.impl("recover %s %d %d %d ~" % (tok, z0, n + t, s))
+                        emit("recover %s %d %d %d ~" % (tok, z0, n + t, s))
+                        emit("recover %s %d %d %d ~" % (tok, z0, t, s))
+                        if rec.startswith("ok ") and rec != "ok ~":
+                            for K in rec[3:].split(";")[:1 if not ctx.thorough else 2]:
+                                emit("verify %s %s %d %d %d" % (tok, K, z0, t, s))
+                                emit("verify %s %s %d %d %d" % (tok, K, z0, t + 1, s))
+                        break
             # degenerate verification inputs (always run, both backends; every verify case is also compared across backends):
             #   u1*G + u2*Q = infinity  (Q = t*G, z = -r*t mod n; with r = x(Q) mod n, and with another r)
             #   u1*G = infinity alone   (z = n, i.e. z = 0 mod n but non-zero), accepted and rejected signature
@@ -462,10 +802,13 @@ def gen(ctx, emit):
             for r in (1, 2, 3, 4, 5, 6, 7):
                 emit("recover %s 1 %d 1 ~" % (tok, r))
             # ---- random stream
-            for _ in range(ctx.n(2, 140)):
+            for it in range(ctx.n(2, 140)):
+                keyder = cfg == "openssl" and (not ctx.thorough or it % 3 == 0)
                 d = rng.choice([rng.randrange(1, n), rng.randrange(1, n), rng.randrange(1, 2 ** 64), n - rng.randrange(1, 1000)])
                 z = rng.choice([rng.randrange(1, two256), rng.randrange(1, two256), rng.randrange(1, n), rng.getrandbits(rng.randrange(1, 257)) or 1])
                 emit("sign %s %d %d" % (tok, d, z))
+                if z < two256 and keyder:
+                    emit("keysign_der %s d:%d:%d %s" % (tok, d, rng.randrange(2), _h32(z)), "key-der")
                 bit = 1 << rng.randrange(256)
                 emit("rfc6979 %s %d %d" % (tok, d, z))
                 emit("rfc6979 %s %d %d" % (tok, d, (z ^ bit) or 1))                 # nonce depends on the hash …
@@ -476,6 +819,14 @@ def gen(ctx, emit):
                 r, s, rid = (int(v) for v in so[3:].split(" "))
                 Q = cc.impl("ec_mul %s %d,%d %d" % (tok, gx, gy, d))[3:]
                 mode = rng.randrange(8)
+                if z < two256 and keyder:
+                    mm = _der_mutations(rng, r, s, n)
+                    for m in [mm[0], rng.choice(mm[1:])] + ([rng.choice(mm[1:])] if ctx.thorough else []):
+                        emit("keyverify_der %s pair:%s:1 %s %s" % (tok, Q, _h32(z), m.hex() or "-"), "key-der")
+                    hist = "keyhist %s d:%d:1 s:%s,l:%s,%s,l:%s,v:%s:%s" % (tok, d, _h32(z), _h32(z), rng.choice(["p", "c", "p,c"]), _h32(z),
+                                                                          _h32(z ^ bit or 1), _der_sig(r, s).hex())
+                    if name == "secp256k1" or ctx.thorough:
+                        emit(hist, "key-history")
                 if mode == 0:
                     emit("verify %s %s %d %d %d" % (tok, Q, z, r, s))
                 elif mode == 1:
@@ -524,6 +875,13 @@ def gen(ctx, emit):
         for r in sorted({1, 2, 3, p - 1, p, p + 1, n - 2, n - 1}):
             if 1 <= r < n:
                 emit("recover %s 5 %d 3 ~" % (tok, r))
+        # the converse of recovery by enumeration: the curve points under which (z, r, s) verifies are exactly the keys recovered at
+        # the abscissas r and r + n, and there are at most four (every r in [0, n], s and z at the boundaries)
+        for r in range(0, n + 1):
+            for s_, z in ((1, 5), (3, n), (n - 1, 2 * n + 1)):
+                emit("toy_keys %s %d %d %d" % (tok, z, r, s_), "toy-keys")
+        emit("toy_keys %s 5 3 0" % tok, "toy-keys")
+        emit("toy_keys %s 5 3 %d" % (tok, n), "toy-keys")
     # generators that are EQUAL AS TUPLES (same base-point coordinates) but different groups, used alternately in one
     # process: recovery and signing on each must not be influenced by what another one was asked before
     fam = cc.shared_base_family()
